@@ -68,53 +68,42 @@ def _masses(driver):
 
 
 def _dist(driver):
-    """which class `get_distribution` hands a text to, for every set of family names occurring in the text (both orders)"""
+    """which class `get_distribution` hands a text to, for every set of family names occurring in the text (both orders): read off
+    the type of the returned object or, when the class constructor rejects the made-up text, off the traceback (the frame of the
+    class's `__init__`) — independent of how the dispatch is written"""
     import gbigsmiles.distribution as dm
     t = driver.run([{"op": "TABLES"}])[0]
     table = [(k, f.split(".")[-1]) for k, f in t["dispatch"]]
     lean_of = {"FlorySchulz": "florySchulz", "Gauss": "gauss", "Uniform": "uniform", "SchulzZimm": "schulzZimm", "LogNormal": "logNormal", "Poisson": "poisson"}
     names = [k for k, _ in table]
-    called = []
-    saved = {}
 
-    def stub(name):
-        def make(text):
-            called.append(name)
-            raise _Stop()
-        return make
-    for cls in lean_of:
-        saved[cls] = getattr(dm, cls)
-        setattr(dm, cls, stub(cls))
+    def chosen(text):
+        try:
+            obj = dm.get_distribution(text)
+            return lean_of.get(type(obj).__name__, type(obj).__name__)
+        except Exception as exc:  # noqa
+            tb = exc.__traceback__
+            found = None
+            while tb is not None:
+                slf = tb.tb_frame.f_locals.get("self")
+                if slf is not None and type(slf).__name__ in lean_of and tb.tb_frame.f_code.co_name == "__init__":
+                    found = lean_of[type(slf).__name__]
+                    break
+                tb = tb.tb_next
+            return found
     bad = []
     n = 0
-    try:
-        for mask in range(1, 2 ** len(names)):
-            present = [nm for b, nm in enumerate(names) if mask >> b & 1]
-            for order in (present, present[::-1]):
-                text = "|" + " ".join(order) + "(1, 2)|"
-                del called[:]
-                try:
-                    dm.get_distribution(text)
-                except _Stop:
-                    pass
-                except Exception:
-                    pass
-                want = next((f for k, f in table if k in text), None)
-                got = lean_of.get(called[0]) if called else None
-                n += 1
-                if want != got:
-                    bad.append({"text": text, "impl": got, "model": want})
-        del called[:]
-        try:
-            dm.get_distribution("|nothing(1)|")
-            bad.append({"text": "|nothing(1)|", "impl": "accepted", "model": "rejected"})
-        except _Stop:
-            bad.append({"text": "|nothing(1)|", "impl": called[:1], "model": "rejected"})
-        except Exception:
-            pass
-    finally:
-        for cls, v in saved.items():
-            setattr(dm, cls, v)
+    for mask in range(1, 2 ** len(names)):
+        present = [nm for b, nm in enumerate(names) if mask >> b & 1]
+        for order in (present, present[::-1]):
+            text = "|" + " ".join(order) + "(1, 2)|"
+            want = next((f for k, f in table if k in text), None)
+            got = chosen(text)
+            n += 1
+            if want != got:
+                bad.append({"text": text, "impl": got, "model": want})
+    if chosen("|nothing(1)|") is not None:
+        bad.append({"text": "|nothing(1)|", "impl": "accepted", "model": "rejected"})
     return not bad, f"class chosen by get_distribution for every non-empty set of family names in the text, both orders ({n} probes)", bad[:5]
 
 
